@@ -49,7 +49,7 @@ SHARD_TIMEOUT = {"quick": 1500, "thorough": 4 * 3600}
 # slices per ISA (cost-balanced: stm8 has 338 classes, x86_64 174)
 SLICES = {"arm": 2, "arm:thumb": 2, "riscv": 2, "riscv:rvc": 3, "x86_64": 6, "msp430": 2, "avr": 2, "m68k": 2,
           "mips": 1, "or1k": 2, "xtensa": 2, "microblaze": 3, "stm8": 10, "mcs6500": 2}
-PER_CLASS = {"quick": 70, "thorough": 1200}
+PER_CLASS = {"quick": 90, "thorough": 1200}
 PER_CLASS_KW = {"quick": 12, "thorough": 150}
 
 
@@ -68,11 +68,11 @@ def plan(tier, seed, avoid):
 
 
 def floors(tier):
-    f = {"evaluations": 40000, "distinct_nontrivial": 20000, "observed.isas": 14,
-         "observed.keyword_labels.evaluations": 1000, "observed.with_relocation": 2000}
+    f = {"evaluations": 25000, "distinct_nontrivial": 15000, "observed.isas": 14,
+         "observed.keyword_labels.evaluations": 800, "observed.with_relocation": 1500}
     for arch in SLICES:
         f["observed.per_isa.%s.classes_judged" % arch] = 25
-        f["observed.per_isa.%s.evaluations" % arch] = 1000
+        f["observed.per_isa.%s.evaluations" % arch] = 300
     return f
 
 
